@@ -53,6 +53,30 @@ impl Property for C19 {
         vec!["world:rand".into(), "world:spelling".into(), "world:cwd_name".into(), "program:failing".into(), "program:stacktrace".into()]
     }
 
+    fn measure(&self, cells: &std::collections::BTreeSet<String>) -> serde_json::Value {
+        // single and pairwise (dimension value x dimension value) cells of the world space
+        let dims: Vec<usize> = (0..DIMS.len()).filter(|d| ALLOWED.contains(&DIMS[*d])).collect();
+        let single_possible: u64 = dims.iter().map(|d| World::dim_cardinality(*d)).sum();
+        let mut pair_possible = 0u64;
+        for (i, a) in dims.iter().enumerate() {
+            for b in dims.iter().skip(i + 1) {
+                // 2>&1 forces stderr to follow stdout: (merged, stderr) is one cell per stdout kind
+                if (DIMS[*a] == "stderr" && DIMS[*b] == "merged") || (DIMS[*a] == "merged" && DIMS[*b] == "stderr") {
+                    pair_possible += 5;
+                } else {
+                    pair_possible += World::dim_cardinality(*a) * World::dim_cardinality(*b);
+                }
+            }
+        }
+        let single = cells.iter().filter(|c| !c.contains('&')).count();
+        let pair = cells.iter().filter(|c| c.contains('&')).count();
+        serde_json::json!({
+            "what": "world-space cells: one per (dimension = non-reference value) and one per pair of such settings occurring together in a run",
+            "single_cells_reached": single, "single_cells_possible_upper_bound": single_possible,
+            "pairwise_cells_reached": pair, "pairwise_cells_possible_upper_bound": pair_possible,
+        })
+    }
+
     fn gen_case(&self, ctx: &Ctx, worker: usize, rng: &mut Rng, _index: u64) -> Case {
         let p = pick_program(ctx, rng);
         let mut world = World::random(rng, ALLOWED);
